@@ -50,13 +50,16 @@ MCPlugins == <<>>
 MCUserDefs(m) == {[n |-> "u1", d |-> Gen(<<MainCset(m)>>), pres |-> FALSE],
                   [n |-> "u1", d |-> Gen(<<MainCset(m)>>), pres |-> TRUE],
                   [n |-> "u1", d |-> Ali(WorkCset(m)), pres |-> FALSE]}
-MCKinds == {"ok", "plain", "modify", "runtime"}
+\* the way each trigger's body fails in the exhaustive runs (the simulated and recorded histories use every kind):
+\* a suppressed exception, one that propagates, a modification error, a never-suppressed RuntimeError
+MCFailKind == [t \in MCTrigs |-> CASE t = "tc" -> "modify" [] t = "td" -> "runtime" [] OTHER -> "plain"]
 MCFmtTrigs == <<"tc">>
 MCDomTrigs == <<"ta", "tb", "td">>
 
 VARIABLES eng, fail, last, steps, op, env
 vars == <<eng, fail, last, steps, op, env>>
 L(o, a, r) == [op |-> o, arg |-> a, res |-> r]
+Toggle(t) == IF fail[t] = "ok" THEN MCFailKind[t] ELSE "ok"
 AllOk == [t \in Trigs |-> "ok"]
 EnvOk == [c \in EnvCalls |-> "ok"]
 TotalReg(s) == LET RECURSIVE Sum(_)
@@ -92,7 +95,7 @@ Next == \/ \E t \in Trigs : Reg(t)
         \/ \E n \in {MainCset(Mode), "u1"} : Repl(n)
         \/ \E n \in {WorkCset(Mode), "u1"} : PeekA(n)
         \/ \E h \in HookSet(Mode) : Hook(h)
-        \/ \E t \in Trigs, k \in MCKinds : SetFail(t, k)
+        \/ \E t \in Trigs : SetFail(t, Toggle(t))
 SpecE == Init /\ [][Next]_vars
 
 RunOf(h) == RunHook(eng, fail, h)
@@ -103,7 +106,7 @@ InvBracket == \A h \in HookSet(Mode) : LET r == RunOf(h) IN
               /\ Bracketed(r.log) /\ PhaseScoped(r.log) /\ StopsAtFailure(r.log, fail, r.res) /\ Notices(r.log, fail)
 InvLazy == \A h \in HookSet(Mode) : LET r == RunOf(h) IN
               /\ AskedOnly(eng, r.log) /\ OncePerRun(r.log) /\ ComputedThisRun(eng, r.log) /\ PreservedKept(eng, r.log)
-InvRun == \A h \in HookSet(Mode) : LET r == RunOf(h) IN RunClauses(eng, fail, h, r.log, r.res) = {}
+InvRun == \A h \in HookSet(Mode) : eng.hooks[h] # <<>> => LET r == RunOf(h) IN RunClauses(eng, fail, h, r.log, r.res) = {}
 InvCoherent == Coherent(eng)
 InvPreservedOnce == PreservedOnce(eng)
 \* a trigger sits only in hooks it named, in a mode it named, with csets the engine knows
@@ -138,7 +141,7 @@ OSetFail(t, k) == /\ OStep /\ fail[t] # k /\ (\A u \in Trigs \ {t} : fail[u] = "
 OSetEnv(c, v) == /\ OStep /\ env[c] # v /\ (\A d \in EnvCalls \ {c} : env[d] = "ok") /\ env' = [env EXCEPT ![c] = v] /\ last' = L("setenv", c, v)
                  /\ UNCHANGED <<op, fail>>
 ONext == \/ OFinish
-         \/ \E t \in {"ta", "tb", "tc", "td"}, k \in {"ok", "plain", "modify"} : OSetFail(t, k)
+         \/ \E t \in {"ta", "tb", "tc", "td"} : OSetFail(t, Toggle(t))
          \/ \E c \in EnvCalls, v \in {"ok", "false", "raise"} : OSetEnv(c, v)
 SpecO == OInit /\ [][ONext]_vars
 
